@@ -10,8 +10,9 @@
   suitable `R` (valid cbuf whose contents/size/alloc are the FIFO's) is exactly what property
   C13 has to provide ("the index model refines `Cbuf.Spec`", plus the two scalar policy facts:
   the descriptor write returns min(request, available) and the capacity follows `growPolicy`);
-  with it every C05/C06 theorem transfers to the index-level relay (`runStream_sim`).  It is NOT
-  proved here; checks/c05.py, c06.py run both instances against the real code on every case.
+  with it every C05/C06 theorem transfers to the index-level relay (`runStream_sim`).  It is
+  proved in Relay/IndexSim.lean (`idx_sim`) on top of Cbuf/Refine.lean, Lines.lean, Writer.lean;
+  checks/c05.py, c06.py additionally run both instances against the real code on every case.
 -/
 import PdshVerif.Relay.Model
 
